@@ -118,11 +118,27 @@ def _check_policy(ctx: Ctx) -> None:
     def is_policy_test(t: ast.AST) -> bool:
         return any(is_self_attr(n, sn) == 'handle_small_distances_bool' for n in ast.walk(t))
 
+    def polarity(t: ast.AST) -> Optional[bool]:
+        """True: the true edge means the clamp policy is selected; False: the raise policy; None: not recognised."""
+        if isinstance(t, ast.UnaryOp) and isinstance(t.op, ast.Not):
+            p = polarity(t.operand)
+            return None if p is None else not p
+        if is_self_attr(t, sn) == 'handle_small_distances_bool':
+            return True
+        if isinstance(t, ast.Compare) and len(t.ops) == 1 and is_self_attr(t.left, sn) == 'handle_small_distances_bool' \
+                and isinstance(t.comparators[0], ast.Constant) and isinstance(t.comparators[0].value, bool):
+            v, op = t.comparators[0].value, t.ops[0]
+            if isinstance(op, (ast.Is, ast.Eq)):
+                return v
+            if isinstance(op, (ast.IsNot, ast.NotEq)):
+                return not v
+        return None
+
     def policy_flags(t: ast.AST):
-        # `x is True` / `x` -> true edge = clamp policy ; `not x` / `x is False` -> true edge = raise policy
-        s = norm(t).replace(' ', '')
-        neg = s.startswith('not') or s.endswith('isFalse') or s.endswith('==False')
-        return (['pol-raise'], ['pol-clamp']) if neg else (['pol-clamp'], ['pol-raise'])
+        p = polarity(t)
+        if p is None:
+            ctx.error('C13.b: the test `%s` on handle_small_distances_bool is not of a recognised form (cannot tell)' % norm(t))
+        return (['pol-clamp'], ['pol-raise']) if p else (['pol-raise'], ['pol-clamp'])
 
     rets = [n for n in walk_no_nested(fn.node) if isinstance(n, ast.Return) and n.value is not None]
     if not rets or not all(isinstance(r.value, ast.Name) for r in rets):
